@@ -15,7 +15,7 @@ Level of detail
 * `usize::reverse_bits(i) >> (usize::BITS - logsize)` is the reversal `bitrev logsize (i mod 2^logsize)`
   of the `logsize` low bits; `none` for `logsize = 0` (shift by 64 in the checked profile, and
   `assert!(k > 0)` of `ntt_inplace` in both);
-* the `debug_assert!` sanity check of the roots at the end of `MultiZmodP::new` is not modelled.
+* the `debug_assert!` sanity check of the roots at the end of `MultiZmodP::new` is `rootsCheck1` (proved to pass).
 No Mathlib import: this file is linked into the native driver.
 -/
 import Ymq.Model.Crt
@@ -82,9 +82,24 @@ def packLevel (logsize : Nat) (big : List (List Nat)) (log : Nat) : List (List N
       if idx = 0 then big.getD 0 [] else big.getD ((2 ^ log - idx) * 2 ^ (logsize - log)) []
   fwd ++ bwd
 
-/-- the field `roots` of `MultiZmodP` -/
+/-- the sanity check at the end of `MultiZmodP::new` for prime `i`:
+`debug_assert!(mg_redc(pi, pi - 2, mg_mul64(pi, roots[((1 << logsize) - 1) * w + i], ωs[i])) == 1)` -/
+def rootsCheck1 (m : Mzp) (last ws : List Nat) (i : Nat) : Option Unit :=
+  match mgMul64 (m.primes.getD i 0) (last.getD i 0) (ws.getD i 0) with
+  | none => none
+  | some x =>
+    match mgRedc (m.primes.getD i 0) (m.primes.getD i 0 - 2) x with
+    | none => none
+    | some v => if v = 1 then some () else none                     -- debug_assert!
+
+/-- the field `roots` of `MultiZmodP` (with the `debug_assert!` sanity check of the checked profile) -/
 def rootsPacked (m : Mzp) : Option (List (List (List Nat))) :=
-  (rootsBig m).map fun big => (List.range (m.k + 1)).map (packLevel m.k big)
+  match omegas m, rootsBig m with
+  | some ws, some big =>
+    match (List.range m.w).mapM (rootsCheck1 m (big.getD (2 ^ m.k - 1) []) ws) with
+    | none => none
+    | some _ => some ((List.range (m.k + 1)).map (packLevel m.k big))
+  | _, _ => none
 
 /-- `(x + y, x + p - y)` each reduced once, with the `u64` checks of the checked profile -/
 def addsub1 (p x y : Nat) : Option (Nat × Nat) :=
